@@ -58,6 +58,13 @@ def gen_tls(repo):
     if len(codes) != 1:
         raise TranslateError('tls_out/tls_err: expected one reply code, found %s' % sorted(codes))
     out += 'Definition TLS_FAIL_CODE : N := %s%%N.\n\n' % codes.pop()
+    # ---- tls_err: what tls_init hands to smtploop after "454 ... local TLS initialization failed"
+    m = re.search(r'\ntls_err\s*\(const char \*s\)\s*\{(.*?)\n\}', st, flags=re.S)
+    if not m:
+        raise TranslateError('starttls.c: tls_err() not found')
+    sign = one(r'return\s+r\s*\?\s*-?\s*r\s*:\s*(-?)\s*EDONE\s*;', m.group(1), 'tls_err return')
+    out += '(* tls_err() returns EDONE (smtploop: reply already sent); false: it returns -EDONE, which smtploop answers with a second reply *)\n'
+    out += 'Definition TLS_ERR_RETURNS_EDONE : bool := %s.\n\n' % _b(sign == '')
     # ---- smtp_ehlo: announcement
     cm = strip_comments(read(repo, 'qsmtpd/commands.c'))
     eh = func_body(cm, 'smtp_ehlo', 'qsmtpd/commands.c')
